@@ -12,6 +12,7 @@ package main
 //	lfc <versionsA> <versionsB> <size> ; <sha256 of the stored bytes> | ok <selector> <len> <sha256 of what the asker got> <largest datagram> / err
 //	lfe <versionsA> <versionsB> ; <asker id> <content id> <responder table records> | ok <tags the asker got> <largest datagram> / err
 import (
+	"bytes"
 	"crypto/ecdsa"
 	"crypto/sha256"
 	"fmt"
@@ -36,6 +37,20 @@ func c08execFc(c *Ctx, keyhex string, reqEnr []byte, asker string, ckey []byte, 
 	store.db = map[string][]byte{}
 	store.fail = map[string]bool{}
 	cid := sha256.Sum256(ckey)
+	// T!<state>: the request goes through handleTalkRequest;  P!<state>: ... and is preceded, on the same instance, by three
+	// requests for another key whose store read fails (no reply): state left behind by a failed request must not leak
+	viaTalk, preFail := false, false
+	if strings.HasPrefix(st, "T!") || strings.HasPrefix(st, "P!") {
+		viaTalk, preFail = true, st[0] == 'P'
+		st = st[2:]
+	}
+	stField := st
+	if viaTalk {
+		stField = "T!" + st
+		if preFail {
+			stField = "P!" + st
+		}
+	}
 	switch {
 	case strings.HasPrefix(st, "F:"):
 		store.db[string(cid[:])] = unhx(st[2:])
@@ -83,8 +98,49 @@ func c08execFc(c *Ctx, keyhex string, reqEnr []byte, asker string, ckey []byte, 
 	}
 	var resp []byte
 	var herr error
-	panicked, pmsg := guard(func() { resp, herr = inst.HandleFindContent(req, addr, &portalwire.FindContent{ContentKey: ckey}) })
-	if mutated {
+	talkMsg := func(k []byte) []byte {
+		body, err := (&portalwire.FindContent{ContentKey: k}).MarshalSSZ()
+		if err != nil {
+			panic(err)
+		}
+		return append([]byte{portalwire.FINDCONTENT}, body...)
+	}
+	if preFail {
+		bad := append([]byte("failing-read-of-another-key-"), ckey...)
+		bid := sha256.Sum256(bad)
+		store.fail[string(bid[:])] = true
+		for k := 0; k < 3; k++ {
+			guard(func() { inst.HandleTalkRequest(req, addr, talkMsg(bad)) })
+		}
+		c.Count("fc_preceded_by_failed_requests")
+	}
+	panicked, pmsg := guard(func() {
+		if viaTalk {
+			resp = inst.HandleTalkRequest(req, addr, talkMsg(ckey))
+			if resp == nil {
+				herr = fmt.Errorf("nil")
+			}
+		} else {
+			resp, herr = inst.HandleFindContent(req, addr, &portalwire.FindContent{ContentKey: ckey})
+		}
+	})
+	// the reply is a value: it is kept WITHOUT copying while a second request (another held key, content of the same size) is
+	// served, and only then looked at
+	changed := false
+	if !panicked && herr == nil && len(resp) >= 2 && resp[1] == portalwire.ContentRawSelector {
+		before := append([]byte{}, resp...)
+		okey := append([]byte("other-held-key-"), ckey...)
+		oid := sha256.Sum256(okey)
+		other := make([]byte, len(resp)-2)
+		for i := range other {
+			other[i] = ^resp[2+i]
+		}
+		store.db[string(oid[:])] = other
+		guard(func() { inst.HandleFindContent(req, addr, &portalwire.FindContent{ContentKey: okey}) })
+		changed = !bytes.Equal(before, resp)
+		c.Count("fc_reply_held_across_a_later_request")
+	}
+	if mutated || viaTalk {
 		// the table the handler read is the one after the change: the reply is judged against that
 		t = newTags()
 		nl = inst.NodeList()
@@ -93,7 +149,9 @@ func c08execFc(c *Ctx, keyhex string, reqEnr []byte, asker string, ckey []byte, 
 			eb := hEnrBytes(n)
 			recs[i] = hRecStr(t.tag(eb), n, len(eb), true)
 		}
-		c.Count("fc_table_changed_during_store_read")
+		if mutated {
+			c.Count("fc_table_changed_during_store_read")
+		}
 	}
 	obs := ""
 	switch {
@@ -101,6 +159,8 @@ func c08execFc(c *Ctx, keyhex string, reqEnr []byte, asker string, ckey []byte, 
 		obs = "panic " + pmsg
 	case herr != nil:
 		obs = "err"
+	case changed:
+		obs = "reply-changed-by-later-request " + hx(resp)
 	case len(resp) < 2 || resp[0] != portalwire.CONTENT:
 		obs = fmt.Sprintf("malformed %d", len(resp))
 	case resp[1] == portalwire.ContentRawSelector:
@@ -128,7 +188,7 @@ func c08execFc(c *Ctx, keyhex string, reqEnr []byte, asker string, ckey []byte, 
 	default:
 		obs = fmt.Sprintf("malformed %d selector", len(resp))
 	}
-	c.Emit("fc %s %s %s %s %s %s ; %s %s %s | %s", keyhex, hx(reqEnr), asker, hx(ckey), st, c11insStr(ins),
+	c.Emit("fc %s %s %s %s %s %s ; %s %s %s | %s", keyhex, hx(reqEnr), asker, hx(ckey), stField, c11insStr(ins),
 		c20idHexC08(req.ID()), new(big.Int).SetBytes(cid[:]).Text(16), hTagList(recs), obs)
 }
 
@@ -371,7 +431,7 @@ func c08fcCase(c *Ctx, r *Rng, key string, pool []hPoolKey) {
 		}
 		n := hRecord(nil, id, hIP(r, r.Pick2([]string{"loop", "lan10", "lan192", "pub"})), 30303, 1, size)
 		nodes = append(nodes, n)
-		ins = append(ins, c11ins{hEnrBytes(n), r.Intn(5) != 0})
+		ins = append(ins, c11ins{hEnrBytes(n), r.Intn(5) != 0, false})
 	}
 	// requester: a table node, or an outsider
 	var req *enode.Node
@@ -403,6 +463,15 @@ func c08fcCase(c *Ctx, r *Rng, key string, pool []hPoolKey) {
 	}
 	a, _ := netip.AddrFromSlice(hIP(r, r.Pick2([]string{"loop", "lan10", "pub", "v6pub"})))
 	asker := netip.AddrPortFrom(a.Unmap(), uint16(1025+r.Intn(60000))).String()
+	// (content above the inline threshold makes the handler start a uTP accept goroutine, which the talk-path hook would wait for)
+	if !strings.Contains(st, "@") && !(strings.HasPrefix(st, "F:") && len(st) > 2+2*1175) {
+		switch r.Intn(6) {
+		case 0:
+			st = "T!" + st // through handleTalkRequest
+		case 1, 2:
+			st = "P!" + st // ... right after requests whose store read failed
+		}
+	}
 	c08execFc(c, key, hEnrBytes(req), asker, ckey, st, ins)
 }
 
@@ -425,19 +494,19 @@ func c08mutCase(c *Ctx, r *Rng, key string) {
 	for i := 0; i < 16; i++ {
 		n := mk(hIDAtDistance(r, self, d))
 		bucket = append(bucket, n)
-		ins = append(ins, c11ins{hEnrBytes(n), true})
+		ins = append(ins, c11ins{hEnrBytes(n), true, false})
 	}
 	for i, k := 0, r.Intn(8); i < k; i++ { // a few entries elsewhere
 		dd := 245 + r.Intn(12)
 		if dd != d {
-			ins = append(ins, c11ins{hEnrBytes(mk(hIDAtDistance(r, self, dd))), true})
+			ins = append(ins, c11ins{hEnrBytes(mk(hIDAtDistance(r, self, dd))), true, false})
 		}
 	}
 	asker := mk(hIDAtDistance(r, self, d)) // 17th of the bucket: goes to the replacement list
 	st := ""
 	switch r.Intn(4) {
 	case 0, 1:
-		ins = append(ins, c11ins{hEnrBytes(asker), true})
+		ins = append(ins, c11ins{hEnrBytes(asker), true, false})
 		st = "N@del:" + hx(hEnrBytes(bucket[r.Intn(len(bucket))]))
 		c.Count("fc_mut_asker_promoted_during_read")
 	case 2:
@@ -614,7 +683,7 @@ func c08live(c *Ctx, r *Rng, quick bool) {
 			var ins []c11ins
 			for _, k := range pool {
 				n := hRecord(k.key, k.id, hIP(r, r.Pick2([]string{"loop", "lan10", "pub"})), 30303, 1, r.Pick([]int{0, 300, 300}))
-				ins = append(ins, c11ins{hEnrBytes(n), true})
+				ins = append(ins, c11ins{hEnrBytes(n), true, false})
 			}
 			for _, x := range ins {
 				if n, err := hNodeFromBytes(x.enr); err == nil {
